@@ -136,4 +136,81 @@ theorem route_listoffsets_leader (c : Cluster) (tn : String) (p : Int) (t : Topi
     leaderFirst c [(tn, [p])] = .ok br.id := by
   simp [leaderFirst, lookupD, ht, hp, hl]
 
+
+/-! ## the metadata cache -/
+
+open KV.Lemmas.Routing (SortedTopics ConnsInv)
+
+/-- **filter_eq_last_refresh**: a topic-filtered metadata request answered from the cache returns, for every
+requested name in request order, the topic entry of the cached answer with that name (or the
+UnknownTopicOrPartition placeholder) — i.e. the restriction of what the brokers answered at the last refresh;
+everything else of the answer (brokers, controller, cluster id) is passed through.  The cache is sorted by
+topic name (`update` normalises it), which is what the bisection needs. -/
+theorem filter_eq_last_refresh (res : MResponse) (names : List String) (hs : SortedTopics res.topics) :
+    filterMetadata (some names) res =
+      { res with topics := names.map fun n => (res.topics.find? (fun t => t.name == n)).getD (unknownTopic n) } := by
+  simp only [filterMetadata]
+  congr 1
+  apply List.map_congr_left
+  intro n _
+  exact Lemmas.Routing.findTopic_correct res.topics hs n
+
+/-- an unfiltered request gets the whole cached answer -/
+theorem filter_all (res : MResponse) : filterMetadata none res = res := rfl
+
+example : SortedTopics [⟨0, "a", false, []⟩, ⟨0, "ab", false, []⟩, ⟨0, "b", false, []⟩] := by
+  unfold SortedTopics; decide
+
+/-- the bisection finds exactly the entries a linear scan finds (concrete instance, incl. a missing name) -/
+example :
+    (filterMetadata (some ["b", "zz", "a"]) ⟨0, [], "", 0, [⟨0, "a", false, []⟩, ⟨0, "ab", false, []⟩, ⟨0, "b", true, []⟩]⟩).topics
+      = [⟨0, "b", true, []⟩, unknownTopic "zz", ⟨0, "a", false, []⟩] := by decide
+
+/-! ## refresh -/
+
+/-- **update_follows**: after a successful refresh with answer `m` the cached answer is `m` (normalised), the
+layout is the one built from it, and the pool has a connection group for exactly the brokers of `m`
+(given it matched the previous layout before) — so every later route is computed from `m`. -/
+theorem update_follows (s : PoolState) (m : MResponse) (h : ConnsInv s) :
+    (update s (some m) false).metadata = some (normalize m) ∧
+    (update s (some m) false).layout = makeLayout (normalize m) ∧
+    (update s (some m) false).err = false ∧
+    ConnsInv (update s (some m) false) :=
+  ⟨rfl, rfl, rfl, Lemmas.Routing.update_connsInv s (some m) false h⟩
+
+/-- a failed refresh never replaces a known cluster view -/
+theorem update_error_keeps_known (s : PoolState) (m : Option MResponse) (h : s.metadata.isSome = true) :
+    update s m true = s := by
+  simp [update, h]
+
+/-- **conns_invariant**: along every history of refreshes (successful or failed, any answers) the connection
+groups are exactly the brokers of the cached layout: a request routed to a broker of the layout always finds
+its group, and no group outlives its broker's removal. -/
+theorem conns_invariant (hist : List (Option MResponse × Bool)) :
+    ConnsInv (hist.foldl (fun s e => update s e.1 e.2) {}) := by
+  suffices h : ∀ s, ConnsInv s → ConnsInv (hist.foldl (fun s e => update s e.1 e.2) s) by
+    apply h
+    intro id
+    simp [keys, Cluster.zero]
+  induction hist with
+  | nil => intro s hs; exact hs
+  | cons e es ih =>
+    intro s hs
+    exact ih _ (Lemmas.Routing.update_connsInv s e.1 e.2 hs)
+
+/-- after a leader moved and the refresh delivered `m`, a produce/fetch request for partitions that `m` says are
+led by broker `b` is sent to `b` -/
+theorem route_follows_update (a : ApiMethods) (s : PoolState) (m : MResponse) (r : ReqInfo) (b : Int)
+    (h : ConnsInv s) (ha : firstCase sendRequestCases a = some .broker) (hb : a.broker = .leaderAll)
+    (hl : leaderAll (makeLayout (normalize m)) r.tps (-1) = .ok b) (hb0 : 0 ≤ b)
+    (hin : b ∈ keys (makeLayout (normalize m)).brokers) :
+    route sendRequestCases a (update s (some m) false).layout (update s (some m) false).conns r = .broker b := by
+  have hf := update_follows s m h
+  have hc : (update s (some m) false).conns.contains b = true := by
+    simp only [List.contains_eq_mem, decide_eq_true_eq]
+    exact (hf.2.2.2 b).mpr (hf.2.1 ▸ hin)
+  unfold route
+  simp only [ha, brokerMethod, hb, hf.2.1, hl, KV.Routing.ofExcept, sendTarget, hc]
+  simp [hb0]
+
 end KV.Props.C12
